@@ -102,7 +102,7 @@ CHECKS["C12"] = dict(engine="svc", technique="stateful property-based testing of
 
 CHECKS["C17"] = dict(engine="svc", technique="stateful property-based testing of the PONG-to-record path of the real service with a vote ledger",
    text="Exploration: generated vote scripts (3..14 voters, minimum 2..6, 2..4 candidate addresses incl. IPv6 in dual stack, voters changing votes across ping rounds, failed pings); whenever the local record's UDP socket changes the ledger must show >= minimum current votes, a unique maximum with the clear-majority margin (all-eligible scripts), the triggering input must be a PONG, seq must grow, the signature must verify and SocketUpdated must be emitted.",
-   note="Vote expiry is not explored (10 min real-time vote duration; IpVote reads the real clock). Votes are per address family, as the record's v4 and v6 sockets are separate.",
+   note="Votes are per address family, as the record's v4 and v6 sockets are separate. Vote expiry (IpVote reads the real clock) is explored in a separate regime (one case in 41: 80 ms vote duration, measured real idle periods) with a one-directional claim only: an update needs >= minimum peers whose naming of the address is not certainly expired.",
    ref="7.4 / C17")
 
 NOT_YET = {}
